@@ -70,9 +70,9 @@ def strategy(draw, tier="quick"):
         wins.append({"s": s, "len": ln, "end_abs": draw(st.integers(-5 * 10**6, 105 * 10**6)), "tz": draw(gen.offsets()), "tz2": draw(gen.offsets())})
     mods = []
     for _ in range(draw(st.sampled_from([0, 0, 1, 2, 4]))):
-        kind = draw(st.sampled_from(["replace", "replace", "replace_last", "delete", "insert"]))
+        kind = draw(st.sampled_from(["replace", "replace", "replace_last", "delete", "insert", "upsert", "upsert"]))
         mods.append({"op": kind, "k": draw(st.integers(0, 20)), "off_ms": draw(st.one_of(st.integers(0, 20), st.integers(0, 100_000))), "dur_us": draw(st.sampled_from([0, 1000, 10**6, 5 * 10**6, 50 * 10**6]))})
-    return {"backend": draw(st.sampled_from(stores.BACKENDS)), "base": base, "events": evs, "mods": mods, "first_read_limit1": draw(st.booleans()), "windows": wins, "limits": draw(st.lists(st.sampled_from([-7, -1, 0, 1, 2, 3, 100]), min_size=1, max_size=3, unique=True))}
+    return {"backend": draw(st.sampled_from(stores.BACKENDS)), "base": base, "events": evs, "mods": mods, "early_read": draw(st.booleans()), "first_read_limit1": draw(st.booleans()), "windows": wins, "limits": draw(st.lists(st.sampled_from([-7, -1, 0, 1, 2, 3, 100]), min_size=1, max_size=3, unique=True))}
 
 
 def known_key(case, v):
@@ -105,6 +105,11 @@ def run_case(case):
             for i, e in enumerate(case["events"]):
                 r = b.insert(stores.mk_event(Event, {"us": base + e["off_ms"] * 1000, "off": 0, "dur_us": e["dur_us"], "data": {"i": i}}))
                 stored[r.id] = (base + e["off_ms"] * 1000, base + e["off_ms"] * 1000 + e["dur_us"], i)
+            if case.get("early_read"):
+                # a windowed read and count BEFORE the history continues (a store may remember things about its contents)
+                w0 = gen.dt_utc(base + 1000)
+                b.get(limit=2, starttime=w0)
+                b.get_eventcount(starttime=w0)
             # the bucket's contents may also be the result of a history: events re-timed by replace / replace_last, deleted, added later
             for j, m in enumerate(case.get("mods", [])):
                 ids_now = sorted(stored)
@@ -119,6 +124,11 @@ def run_case(case):
                 elif m["op"] == "replace":
                     eid = ids_now[m["k"] % len(ids_now)]
                     b.replace(eid, ev)
+                    stored[eid] = new
+                elif m["op"] == "upsert":  # re-timed through a bulk insert that carries its id
+                    eid = ids_now[m["k"] % len(ids_now)]
+                    ev.id = eid
+                    b.insert([ev])
                     stored[eid] = new
                 else:
                     last = b.get(limit=1)
